@@ -2,6 +2,8 @@
 import json, os, sys
 from checklib import *
 import spec_c13
+import spec_c13k
+KOPS = ('kperm', 'khash', 'khashornoop', 'ktwo', 'kdigest_to_vec', 'kchallenger')
 
 # filled from coq/Props/C13.v (every Theorem there)
 THEOREMS = [
@@ -33,7 +35,7 @@ def oracle_scan(casefile, limit=20):
     for lineno, op, args, res in parse_case_lines(casefile):
         n += 1
         dist[op] = dist.get(op, 0) + 1
-        msg = spec_c13.check(op, args, res)
+        msg = (spec_c13k if op in KOPS else spec_c13).check(op, args, res)
         if msg is not None and len(fails) < limit:
             fails.append({"line": lineno, "op": op, "args": args, "impl": res, "why": msg})
     return n, fails, dist
